@@ -45,6 +45,24 @@ theorem regOpt_doClose (s : Server) (k : Nat) (x : Conn) (hx : s.conns[k]? = som
     rw [doClose_some s k x f hf]
     exact h1
 
+theorem regOpt_closeOne (s : Server) (k c : Nat) : regOpt (closeOne s k).1.conns c = regOpt s.conns c := by
+  cases hx : s.conns[k]? with
+  | none => rw [closeOne_none hx]
+  | some x =>
+    cases hc : x.closed with
+    | true => rw [closeOne_noop hx hc]
+    | false =>
+      by_cases ha : x.awaiting = 0
+      · rw [closeOne_do hx hc ha]; exact regOpt_doClose s k x hx c
+      · rw [closeOne_defer hx hc ha]; (refine regOpt_set hx _ ?_ c; rfl)
+
+theorem regOpt_stepClose (s : Server) (k c : Nat) : regOpt (stepClose s k).1.conns c = regOpt s.conns c := by
+  refine stepClose_ind (fun t => regOpt t.conns c = regOpt s.conns c) s k rfl ?_ ?_
+  · intro t j h; rw [regOpt_closeOne, h]
+  · intro t j x h hx
+    refine Eq.trans (regOpt_set hx _ ?_ c) h
+    rfl
+
 theorem regOpt_route (s : Server) (tok c : Nat) : regOpt (route s tok).1.conns c = regOpt s.conns c := by
   unfold route
   cases aget s.owner tok with
@@ -82,12 +100,10 @@ theorem regOpt_settle (s : Server) (dst : Dest) (c : Nat) : regOpt (settle s dst
       · (refine regOpt_set hd _ ?_ c; rfl)
       · rfl
   | lost d =>
-    simp only [settle]
     cases hd : s.conns[d]? with
-    | none => rfl
+    | none => simp only [settle, hd]
     | some y =>
-      simp only []
-      rw [regOpt_doClose _ d _ (get_set_self hd _) c]
+      rw [settle_state s d y hd, regOpt_stepClose]
       (refine regOpt_set hd _ ?_ c; rfl)
   | dropped => rfl
   | filtered => rfl
@@ -172,16 +188,37 @@ theorem regOpt_step (s : Server) (e : Event) (c : Nat) :
     | close k cause =>
       have h1 : (step s (.close k cause)).1 = (stepClose s k).1 := by unfold step; simp [hd]
       rw [h1]; simp only [regDelta, List.append_nil]
-      unfold stepClose
+      exact regOpt_stepClose s k c
+    | admin k =>
+      have h1 : (step s (.admin k)).1 = (stepAdmin s k).1 := by unfold step; simp [hd]
+      rw [h1]; simp only [regDelta, List.append_nil]
+      unfold stepAdmin
       cases hx : s.conns[k]? with
       | none => rfl
       | some x =>
         simp only []
         split
         · rfl
-        · split
-          · (refine regOpt_set hx _ ?_ c; rfl)
-          · exact regOpt_doClose s k x hx c
+        · have e1 : regOpt (s.conns.set k { x with nested := some s.conns.length }) c = regOpt s.conns c := by
+            refine regOpt_set hx _ ?_ c; rfl
+          rw [← e1]
+          unfold regOpt
+          rw [List.getElem?_append]
+          split
+          · rfl
+          · rename_i hlt
+            have hl : (s.conns.set k { x with nested := some s.conns.length }).length ≤ c := by omega
+            rw [List.getElem?_eq_none hl]
+            cases hh : ([({ kind := .text, outer := some k } : Conn)])[c - (s.conns.set k { x with nested := some s.conns.length }).length]? with
+            | none => rfl
+            | some y =>
+              have : c - (s.conns.set k { x with nested := some s.conns.length }).length = 0 := by
+                by_cases e0 : c - (s.conns.set k { x with nested := some s.conns.length }).length = 0
+                · exact e0
+                · have : ([({ kind := .text, outer := some k } : Conn)])[c - (s.conns.set k { x with nested := some s.conns.length }).length]? = none :=
+                    List.getElem?_eq_none (by simp only [List.length_cons, List.length_nil]; omega)
+                  rw [this] at hh; cases hh
+              rw [this] at hh; simp at hh; subst hh; rfl
 
 theorem regOpt_fold (evs : List Event) : ∀ (s : Server) (c : Nat),
     regOpt (evs.foldl (fun s e => (step s e).1) s).conns c = regOpt s.conns c ++ registered s evs c := by
